@@ -396,6 +396,20 @@ func (ex *Exec) sliceOp(fr *Frame, x *ssa.Slice) Value {
 		}
 		r := base.(RefV)
 		var alts []Alt
+		// buf[:0] of a buffer of marshalled lines: the empty buffer
+		if hi != nil && hi.IsConst() && hi.SVal() == 0 && (lo == nil || (lo.IsConst() && lo.SVal() == 0)) {
+			boxy := false
+			for _, a := range r.Alts {
+				switch a.Tgt.(type) {
+				case BoxT, BoxSeqT:
+					boxy = true
+				}
+			}
+			if boxy {
+				arr := ex.newArray("bytes", types.Typ[types.Uint8], 0)
+				return Ref1(SliceT{Arr: arr, Off: 0, Len: BVC(0, 64), Cap: 0})
+			}
+		}
 		if isSparse(r) {
 			if hi != nil && hi.IsConst() && hi.SVal() == 0 && (lo == nil || (lo.IsConst() && lo.SVal() == 0)) {
 				for _, a := range r.Alts {
